@@ -14,7 +14,7 @@ import (
 // ---- sigterm suite (C19, process level): the real binary is told to stop while requests and probes are in flight ----
 
 type SgCase struct {
-	Phase    string `json:"phase"`    // idle | headers | body
+	Phase    string `json:"phase"`    // idle | headers | body | stuck (the backend never answers: the request cannot finish within the time-out)
 	HangHC   bool   `json:"hanghc"`   // active checks enabled against a health endpoint that never answers
 	Timeout  int    `json:"timeout"`  // server.timeouts.shutdown, seconds
 	Signals  int    `json:"signals"`  // how many times the signal is sent
@@ -86,11 +86,15 @@ func runSgCase(c SgCase, tag string) (string, map[string]int) {
 	if c.Phase == "headers" {
 		close(relHeaders)
 	}
-	if c.Phase != "idle" {
+	if c.Phase != "idle" && c.Phase != "stuck" {
 		close(relBody)
 	}
-	completed := c.Phase == "idle"
-	if c.Phase != "idle" {
+	if c.Phase == "stuck" {
+		defer close(relHeaders)
+		defer close(relBody)
+	}
+	completed := c.Phase == "idle" || c.Phase == "stuck" // nothing to drain / nothing that can be drained in time
+	if c.Phase != "idle" && c.Phase != "stuck" {
 		select {
 		case r := <-respCh:
 			completed = r.Status == 200 && len(r.Body) == 2048 && bodyCode(r.Body) == 2048 && !r.Trunc
@@ -107,7 +111,7 @@ func runSgCase(c SgCase, tag string) (string, map[string]int) {
 		hp.cmd.Process.Kill()
 	}
 	// a new connection after the exit must be refused
-	phase := map[string]int{"idle": 0, "headers": 1, "body": 2}[c.Phase]
+	phase := map[string]int{"idle": 0, "headers": 1, "body": 2, "stuck": 3}[c.Phase]
 	stats["phase_"+c.Phase]++
 	return fmt.Sprintf("mkSgCase %d %s %d %d %s %s %s", phase, B(c.HangHC), c.Timeout, c.Signals, B(completed), ZI(int(exitMs)), ZI(code)), stats
 }
@@ -121,6 +125,8 @@ func TestSigterm(t *testing.T) {
 		}
 	}
 	cases = append(cases, SgCase{Phase: "body", HangHC: true, Timeout: 2, Signals: 3}, SgCase{Phase: "headers", Timeout: 2, Signals: 2, Interrupt: true})
+	// a request that cannot finish: the process still stops cleanly when the time-out is over
+	cases = append(cases, SgCase{Phase: "stuck", HangHC: true, Timeout: 1, Signals: 1}, SgCase{Phase: "stuck", Timeout: 1, Signals: 1})
 	if Tier() == "thorough" {
 		for i := 0; i < 24; i++ {
 			g := NewRng(Seed() + uint64(7000+i))
